@@ -11,6 +11,56 @@ type RecAttrs struct {
 	Activations       []string // nil = defaults
 	LinearBeforeReset bool
 	InputForget       bool
+	// ActAlpha / ActBeta: activation_alpha / activation_beta, one entry per activation (the
+	// generator only uses them when every activation of the list consumes them, so that
+	// "consumed in the order of the activation functions" has one reading); nil = defaults.
+	ActAlpha, ActBeta []float64
+}
+
+// act returns activation i of the list with its parameters applied.
+func (at RecAttrs) Act(acts []string, i int) (func(float64) float64, bool) {
+	f, ok := Activation(acts[i])
+	if !ok || (at.ActAlpha == nil && at.ActBeta == nil) {
+		return f, ok
+	}
+	alpha, beta, hasA, hasB := 0.0, 0.0, false, false
+	if i < len(at.ActAlpha) {
+		alpha, hasA = at.ActAlpha[i], true
+	}
+	if i < len(at.ActBeta) {
+		beta, hasB = at.ActBeta[i], true
+	}
+	switch strings.ToLower(acts[i]) {
+	case "hardsigmoid":
+		if !hasA {
+			alpha = 0.2
+		}
+		if !hasB {
+			beta = 0.5
+		}
+		return func(x float64) float64 { return math.Min(1, math.Max(0, alpha*x+beta)) }, true
+	case "leakyrelu":
+		if !hasA {
+			alpha = 0.01
+		}
+		return func(x float64) float64 {
+			if x >= 0 {
+				return x
+			}
+			return alpha * x
+		}, true
+	case "elu":
+		if !hasA {
+			alpha = 1
+		}
+		return func(x float64) float64 {
+			if x >= 0 {
+				return x
+			}
+			return alpha * (math.Exp(x) - 1)
+		}, true
+	}
+	return f, ok
 }
 
 // Activation returns the ONNX activation function for a name (case-insensitive
@@ -141,7 +191,7 @@ func RNN(x, w, r, b, h0 *T, at RecAttrs) ([]*T, error) {
 	if len(acts) != 1 {
 		return nil, invalid("RNN needs 1 activation, got %d", len(acts))
 	}
-	f, ok := Activation(acts[0])
+	f, ok := at.Act(acts, 0)
 	if !ok {
 		return nil, invalid("activation %q", acts[0])
 	}
@@ -178,8 +228,8 @@ func GRU(x, w, r, b, h0 *T, at RecAttrs) ([]*T, error) {
 	if len(acts) != 2 {
 		return nil, invalid("GRU needs 2 activations, got %d", len(acts))
 	}
-	f, ok1 := Activation(acts[0])
-	g, ok2 := Activation(acts[1])
+	f, ok1 := at.Act(acts, 0)
+	g, ok2 := at.Act(acts, 1)
 	if !ok1 || !ok2 {
 		return nil, invalid("activations %v", acts)
 	}
@@ -256,9 +306,9 @@ func LSTM(x, w, r, b, h0, c0, p *T, at RecAttrs) ([]*T, error) {
 	if len(acts) != 3 {
 		return nil, invalid("LSTM needs 3 activations, got %d", len(acts))
 	}
-	f, ok1 := Activation(acts[0])
-	g, ok2 := Activation(acts[1])
-	hh, ok3 := Activation(acts[2])
+	f, ok1 := at.Act(acts, 0)
+	g, ok2 := at.Act(acts, 1)
+	hh, ok3 := at.Act(acts, 2)
 	if !ok1 || !ok2 || !ok3 {
 		return nil, invalid("activations %v", acts)
 	}
